@@ -98,15 +98,58 @@ func isOPCSignaturePart(name string) bool {
 }
 
 func buildVSIX(env *Env, v Variant) ([]*Artifact, error) {
-	a, err := env.signFixture("vsix", "VSIXProject1.vsix", "VSIXProject1.vsix", "", v, nil)
-	if err != nil {
-		return nil, err
-	}
-	// sibling: catalog.json changed
 	in, err := readFile(relicxPackages("VSIXProject1.vsix"))
 	if err != nil {
 		return nil, err
 	}
+	a, err := buildVSIXFrom(env, v, "VSIXProject1.vsix", in, nil)
+	if err != nil {
+		return nil, err
+	}
+	// the same package with a second copy of two parts under other names
+	// (identical bytes, identical digest in the signed Manifest, a place of
+	// their own in the archive): byte flips over both copies of each. A verifier
+	// that remembers checked digests by value instead of by part is wrong only
+	// on a later copy.
+	zin, err := zipParse(in, len(in))
+	if err != nil {
+		return nil, err
+	}
+	ms := zin.members()
+	var copies []string
+	for _, name := range []string{"catalog.json", "VSIXProject1.pkgdef"} {
+		e := zin.find(name)
+		if e == nil {
+			continue
+		}
+		c, err := zin.content(e)
+		if err != nil {
+			return nil, err
+		}
+		i := strings.LastIndexByte(name, '.')
+		cn := name[:i] + "-copy" + name[i:]
+		ms = append(ms, zMember{Name: cn, Content: c, Deflate: true, CDRank: float64(len(zin.Entries)) + 0.5})
+		copies = append(copies, name, cn)
+	}
+	if len(copies) == 0 {
+		return []*Artifact{a}, nil
+	}
+	b, err := buildVSIXFrom(env, v, "VSIXProject1.vsix+second-copy-of-two-parts", zipBuild(in, ms, zin.opts()), copies)
+	if err != nil {
+		return nil, err
+	}
+	return []*Artifact{a, b}, nil
+}
+
+// buildVSIXFrom signs one input. flipOnly != nil: the artifact is enumerated
+// with byte flips over the data of the named parts only, without semantic
+// mutations (they are those of the plain fixture).
+func buildVSIXFrom(env *Env, v Variant, label string, in []byte, flipOnly []string) (*Artifact, error) {
+	a, err := env.signData("vsix", label, in, "VSIXProject1.vsix", "", v, nil)
+	if err != nil {
+		return nil, err
+	}
+	// sibling: catalog.json changed
 	zin, err := zipParse(in, len(in))
 	if err != nil {
 		return nil, err
@@ -156,6 +199,17 @@ func buildVSIX(env *Env, v Variant) ([]*Artifact, error) {
 	if err := zipSelfCheck(z, a.ID()); err != nil {
 		a.Notes = append(a.Notes, err.Error())
 	}
+	if flipOnly != nil {
+		for _, name := range flipOnly {
+			e := z.find(name)
+			if e == nil || !vi.refs[name] {
+				return nil, fmt.Errorf("vsix: part %s of the input is not referenced by the signed Manifest", name)
+			}
+			a.Windows = append(a.Windows, Win{e.Data.Off, e.Data.Len})
+		}
+		a.WindowNote = "the stored data of " + strings.Join(flipOnly, ", ") + " (everything else is enumerated on the plain fixture)"
+		return a, nil
+	}
 	pol := zipPolicy{
 		role: func(name string) string {
 			switch {
@@ -201,6 +255,28 @@ func buildVSIX(env *Env, v Variant) ([]*Artifact, error) {
 			}
 		}
 		return zipBuild(src, ms, z.opts())
+	}
+	// XML signature wrapping: a part modified and an unsigned look-alike of every
+	// element the verifier has to locate on its way from SignatureValue to the
+	// part's digest (vsixwrap.go)
+	{
+		wraps, notes := vsixWrapping(a, vi, func(nx []byte, part string, content []byte) []byte {
+			ms := append([]zMember{}, base...)
+			for i, mm := range ms {
+				switch mm.Name {
+				case vi.sig.Name:
+					ms[i] = zMember{Name: mm.Name, Content: nx, Deflate: true, CDRank: mm.CDRank}
+				case part:
+					ms[i] = zMember{Name: mm.Name, Content: content, Deflate: true, CDRank: mm.CDRank}
+				}
+			}
+			return zipBuild(src, ms, z.opts())
+		})
+		a.Semantic = append(a.Semantic, wraps...)
+		a.Notes = append(a.Notes, notes...)
+		for _, n := range notes {
+			semSkipped = append(semSkipped, a.ID()+": "+n)
+		}
 	}
 	// swap two DigestValues of the Manifest
 	{
@@ -248,5 +324,5 @@ func buildVSIX(env *Env, v Variant) ([]*Artifact, error) {
 			a.Semantic = append(a.Semantic, SemMut{Class: "truncate-chain", Site: "drop-all-certificates", Data: replaceSig([]byte(x[:strings.Index(x, "<X509Data>")] + x[strings.Index(x, "</X509Data>")+len("</X509Data>"):])), Assert: true, Why: "no certificate left to chain to the trusted root"})
 		}
 	}
-	return []*Artifact{a}, nil
+	return a, nil
 }
